@@ -211,5 +211,13 @@ func RobustInputs(thorough bool, try func(kind string, seed int, input []byte, c
 			}
 		}
 	}
+	// pairs of goroutines parked in the same function whose argument lists have
+	// different shapes (every ordered pair of argument-list shapes)
+	for i, a := range ArgShapes {
+		for j, b := range ArgShapes {
+			in := []byte("goroutine 1 [select]:\nmain.worker(" + Substitute(a, 0).String() + ")\n\t/a/w.go:10 +0x1\n\ngoroutine 2 [select]:\nmain.worker(" + Substitute(b, 1).String() + ")\n\t/a/w.go:10 +0x1\n\ngoroutine 3 [select]:\nmain.worker(" + Substitute(a, 2).String() + ")\n\t/a/w.go:10 +0x1\n")
+			try("shape-pair", 1000+i*len(ArgShapes)+j, in, true)
+		}
+	}
 	return len(seeds)
 }
